@@ -30,8 +30,14 @@ def right_x(Y):
 
 
 def scan_structure(rep, prog, rows, cols):
+    # one pass per way through the data-dependent branches of the scan converter (none on the pristine code)
+    for trace, (it, frags, lines, log) in RS.explore_scan(prog, rows, cols):
+        scan_structure_path(rep, prog, rows, cols, trace, it, frags, lines, log)
+
+
+def scan_structure_path(rep, prog, rows, cols, trace, it, frags, lines, log):
     cfg = prog.config
-    it, frags, lines, log = RS.run_scan(prog, rows, cols)
+    cond = "" if not trace else " [when %s]" % S.fmt_trace(trace)[:160]
     b = prog.body(RS.R + "scan")
     nb = prog.body(RS.NEXT)
     ry0 = ("symop", "RND", sym("y0"), None)
@@ -73,14 +79,27 @@ def scan_structure(rep, prog, rows, cols):
     except A.Undecided as e:
         raise common.Infra("C04: identities could not be decided (%s)" % e)
     bad = {}
-    for (rule, w), r in zip(what, res):
+    for (rule, w), r, pr in zip(what, res, pairs):
         if not r["equal"]:
             bad.setdefault(rule, []).append(w)
+            bad.setdefault("#" + rule, []).append((w, "px", pr[0], pr[1]))
+    if trace and any(not k.startswith("#") for k in bad):
+        # identities that fail on a forked path are reported with an input taking that path on which the value is off by more than the
+        # property's 0.001 px band; without one the rule cannot decide
+        shown = {}
+        for rule in [k for k in bad if not k.startswith("#")]:
+            w_ = RS.scan_witness(trace, log, rows, cols, bad["#" + rule])
+            if w_ is not None:
+                shown[rule] = w_
+        if not shown:
+            raise common.Infra("C04: on the path%s the row/span identities do not hold but no trapezoid was found that takes it and is off by more than 0.001 px: undecided" % cond)
+        bad = {k: [x + " (e.g. %s: %.6g instead of %.6g)" % (shown[k]["input"], shown[k]["got"], shown[k]["want"]) for x in v[:1]] + v[1:] for k, v in bad.items() if k in shown}
+    bad = {k: v for k, v in bad.items() if not k.startswith("#")}
     for rule, txt in (("J1", "rows are RND(y0), RND(y0)+1, ... in increasing order"), ("J2", "spans run from the rounded left edge to the rounded right edge evaluated at the row's own y")):
         n = sum(1 for (r_, _w) in what if r_ == rule)
-        rep.inst("C04." + rule, "%s: %d identities on %d rows: %s" % (txt, n, len(lines), "hold" if rule not in bad else "FAIL (%s)" % bad[rule][0]), config=cfg)
+        rep.inst("C04." + rule, "%s: %d identities on %d rows%s: %s" % (txt, n, len(lines), cond, "hold" if rule not in bad else "FAIL (%s)" % bad[rule][0]), config=cfg)
         if rule in bad:
-            rep.violate("C04." + rule, "%s|scan" % rule, b.where(), "%s does not hold as an identity over the reals: %s" % (txt, "; ".join(bad[rule][:3])), config=cfg)
+            rep.violate("C04." + rule, "%s|scan" % rule, b.where(), "%s does not hold as an identity over the reals%s: %s" % (txt, cond, "; ".join(bad[rule][:3])), config=cfg)
     if len(lines) != rows:
         rep.violate("C04.J1", "J1|rows", nb.where(), "%d scanlines were emitted for a row count of %d" % (len(lines), rows), config=cfg)
 
